@@ -9,4 +9,6 @@ CONSTANTS
   WithMigration = FALSE
   EmptyTableAtStart = FALSE
   AtomicAsk = FALSE
+  WithFailover = FALSE
+  FixRefreshOnDialError = TRUE
 CHECK_DEADLOCK FALSE
